@@ -1091,7 +1091,7 @@ def generate(seed, tier, focus=None):
     kinds = {None: ["req", "req", "resp", "dialog", "tcp", "twin"], "requests": ["req"], "responses": ["resp"],
              "dialogs": ["dialog"], "tcp": ["tcp"], "twins": ["twin"]}[focus]
     if focus in ("dialogs", "tcp", "twins"):
-        n = n // 3
+        n = n // 3 if focus != "tcp" else n // 2
     def Gen2(a, b=None):
         x = Gen(a, b)
         x.stats = g.stats          # one histogram for the whole run
